@@ -169,6 +169,21 @@ class C17:
                     if not strict_eq(o_, pristine):
                         report("mutated", f"original changed from {pristine!r} to {o_!r} (shared override {shared!r})", -1, "shared")
         if unit["lo"] == 0:
+            # every result is a NEW dictionary - also the empty ones (what a caller does to one result must not show in the next)
+            try:
+                e1 = merge_config({}, None)
+                e1["poisoned"] = 1
+                n1 = merge_config({"s": {}}, {"s": {}})
+                n1["s"]["poisoned"] = 1
+                e2 = merge_config(None, {})
+                n2 = merge_config({"s": {}}, {"s": {}})
+                s["evaluations"] += 4
+                if e2 != {} or e1 is e2 or n2 != {"s": {}} or n1["s"] is n2["s"]:
+                    report("not-new", f"after a caller had modified the results of earlier empty merges, merge_config(None, {{}}) = {e2!r} and "
+                                      f"merge_config({{'s': {{}}}}, {{'s': {{}}}}) = {n2!r}", -1, "fresh-empty")
+            except Exception as e:  # noqa: BLE001
+                report("raises", f"fresh-empty: {type(e).__name__}: {e}", -1, "fresh-empty")
+        if unit["lo"] == 0:
             # None for BOTH arguments (once per universe)
             try:
                 r = merge_config(None, None)
@@ -254,6 +269,14 @@ class C17:
         specs = universe(keys, leaves, depth)
         o = build(specs[p["original"]], leaves, orig_class(p["universe"])) if p["original"] >= 0 else None
         j = p["overrides"]
+        if j == "fresh-empty":
+            s2 = self.work({"universe": "a-d4", "lo": 0, "hi": 0}, "quick")
+            for v in s2["violations"]:
+                for f in v["fails"]:
+                    print("FAIL", f[0], "-", f[1])
+            if s2["violations"]:
+                print(f"VIOLATION property=C17 replay={rec.get('_path', '')}")
+            return 1 if s2["violations"] else 0
         if j == "shared":
             print("(shared-override family: re-running the whole family)")
             s2 = self.work({"universe": "ab-d2", "lo": 0, "hi": 0}, "quick")
